@@ -450,7 +450,9 @@ class Machine:
     def __init__(self, prog, prims=None, overrides=None, max_configs=4000, max_steps=200000, max_depth=24):
         self.prog = prog
         self.prims = prims or {}
-        self.overrides = overrides or {}
+        self.overrides = dict(overrides or {})
+        for _k in list(self.overrides):
+            self.overrides.setdefault(std_name(_k), self.overrides[_k])
         self.max_configs = max_configs
         self.max_steps = max_steps
         self.max_depth = max_depth
@@ -1480,7 +1482,7 @@ class Machine:
             c = f['ctor']
             return self.finish_call(cfg, dest, ret_bb, Adt(c['adt'], c['variant'], args))
         names = [f.get('rpath'), f.get('path')]
-        names = names + [std_name(n) for n in names if n and std_name(n) != n]   # no_std crates print core:: / alloc:: paths
+        names = [x for n in names if n for x in ((n, std_name(n)) if std_name(n) != n else (n,))]   # no_std crates print core:: / alloc:: paths
         handler = None
         for n in names:
             if n and n in self.overrides:
@@ -1608,7 +1610,7 @@ class Machine:
             c = f['ctor']
             return self.finish_call(cfg, dest, ret_bb, post(self, cfg, Adt(c['adt'], c['variant'], args)))
         names = [f.get('rpath'), f.get('path')]
-        names = names + [std_name(n) for n in names if n and std_name(n) != n]
+        names = [x for n in names if n for x in ((n, std_name(n)) if std_name(n) != n else (n,))]
         handler = None
         for n in names:
             if n and n in self.overrides:
